@@ -111,12 +111,14 @@ def family(n: int = 3, *, ntypes: int = 1, maxpars=(UNL,), maxws=(2,), backends=
                         for c0 in cached_sets:
                             for bust in busts:
                                 clo = sorted(closure(deps, req, c0, bust))
+                                # a task that is cached beforehand has run successfully: it cannot be one that raises
+                                can_fail = [t for t in clo if t not in c0]
                                 if fails == 'none':
                                     fail_sets = [[]]
                                 elif fails == 'singles':
-                                    fail_sets = [[]] + [[t] for t in clo]
+                                    fail_sets = [[]] + [[t] for t in can_fail]
                                 else:
-                                    fail_sets = list(subsets(clo))
+                                    fail_sets = list(subsets(can_fail))
                                 for fl in fail_sets:
                                     for backend in backends:
                                         for maxw in (maxws if backend != 'serial' else maxws[:1]):
